@@ -34,7 +34,7 @@ PLAN = {
     "thorough": {"shards": 16, "shard_timeout": 3600, "case_timeout": 120, "inproc": 100000, "strace": 200, "failpoints": 5000, "sigkill": 500, "max_case_timeouts": 8},
 }
 THRESHOLDS = {
-    "quick": {"recorders_on_lazily_sized_problems": 20, "disk_reads_after_register": 3000, "rows_compared": 3000, "multi_objective_rows": 800, "extra_field_cells": 1500, "simplegp_runs": 10, "strace_runs": 6, "strace_writes": 100, "crash_files_checked": 40, "set:kill_points": 15, "only_best_runs": 60, "set:special_cells_seen": 12, "simplegp_ambiguous_runs": 10, "rows_of_lookalike_programs": 20, "field_configuration:empty+extra": 15, "field_configuration:explicit+extra": 15, "field_configuration:default+noextra": 15, "field_configuration:default+override": 10, "field_configuration:explicit+override": 10, "recorders_sharing_a_fields_dict": 15},
+    "quick": {"re_registrations": 300, "only_best_runs_with_several_objectives": 15, "configuration_dicts_changed_after_construction": 80, "recorders_on_lazily_sized_problems": 20, "disk_reads_after_register": 3000, "rows_compared": 3000, "multi_objective_rows": 800, "extra_field_cells": 1500, "simplegp_runs": 10, "strace_runs": 6, "strace_writes": 100, "crash_files_checked": 40, "set:kill_points": 15, "only_best_runs": 60, "set:special_cells_seen": 12, "simplegp_ambiguous_runs": 10, "rows_of_lookalike_programs": 20, "field_configuration:empty+extra": 15, "field_configuration:explicit+extra": 15, "field_configuration:default+noextra": 15, "field_configuration:default+override": 10, "field_configuration:explicit+override": 10, "recorders_sharing_a_fields_dict": 15},
     "thorough": {"disk_reads_after_register": 80000, "crash_files_checked": 650, "set:kill_points": 60, "strace_runs": 35},
 }
 
